@@ -96,7 +96,7 @@ static int roundtrip(struct isal_hufftables *ht, const uint8_t *src, size_t n, v
 			} while (s->internal_state.state != ZSTATE_END && ++guard < 100000);
 			outl = s->total_out;
 		} else {
-			isal_deflate_stateless_init(s); s->gzip_flag = wrapper; s->hufftables = ht; s->flush = NO_FLUSH; s->end_of_stream = 1; s->next_in = in; s->avail_in = (uint32_t) n; s->next_out = out; s->avail_out = (uint32_t) ocap;
+			isal_deflate_stateless_init(s); s->gzip_flag = wrapper; s->hufftables = ht; s->flush = (uint16_t) (vrn(r, 4) ? NO_FLUSH : FULL_FLUSH) /* with end_of_stream the stream is terminated either way */; s->end_of_stream = 1; s->next_in = in; s->avail_in = (uint32_t) n; s->next_out = out; s->avail_out = (uint32_t) ocap;
 			int rc = isal_deflate_stateless(s); if (rc != COMP_OK) { V_END; snprintf(key, sizeof key, "deflate-error:%s", what); v_viol(key, "isal_deflate_stateless returned %d", rc); goto out; }
 			outl = s->total_out;
 		}
@@ -279,6 +279,8 @@ static void table_case(long idx, vrng *r)
 		size_t n = vrn(r, 30000); int kind = vrn(r, 3); if (kind == 0) vr_fill(r, data, n); else for (size_t i = 0; i < n; i++) data[i] = (uint8_t) (kind == 1 ? "etaoin shrdlu\n"[vrn(r, 14)] : (i * 7) >> (i & 3));
 		if (roundtrip(ht, data, n, r, "other-data")) goto out;
 		{ int all[256]; for (int i = 0; i < 256; i++) all[i] = i; for (int rep = 0; rep < 3; rep++) if (worst_group(ht, r, all, 256, "worst-group")) goto out; }
+		if (vrn(r, 10) == 0) { /* more than 65535 bytes the table cannot shrink (stored-block fallback with several stored blocks) */
+		  size_t nb = 66000 + vrn(r, 70000); vr_fill(r, data, nb); if (roundtrip(ht, data, nb, r, "incompressible-over-64k")) goto out; }
 		{ /* a long constant run first (one-shot compression has a shortcut for it that leaves the bit buffer unaligned in front of the stored table header), then other data */
 		  size_t run = 4096 + vrn(r, 5000), m = vrn(r, 3000); memset(data, vrn(r, 2) ? 0 : 0xff, run); for (size_t i = 0; i < m; i++) data[run + i] = (uint8_t) (vrn(r, 3) ? "lorem ipsum dolor\n"[vrn(r, 18)] : vr32(r));
 		  if (roundtrip(ht, data, run + m, r, "constant-run-first")) goto out; }
@@ -295,8 +297,8 @@ int main(int argc, char **argv)
 	v_init(argc, argv);
 	if (refcrc_selftest() || refadler_selftest()) v_harness_fail("reference checksum self-test failed");
 	if (V_NDISPATCHED > 0) cpusim_init();
-	s_ht = gs_new("hufftables", sizeof(struct isal_hufftables) + 8192); s_hg = gs_new("histogram", sizeof(struct isal_huff_histogram) + 8192); s_ctx = gs_new("isal_zstream", sizeof(struct isal_zstream) + 8192); s_in = gs_new("next_in", 70000); s_out = gs_new("next_out", 200000);
-	data = malloc(70000); tstream = malloc(400000); expect = malloc(400000); dec = malloc(400000); cout = malloc(200000); dec2 = malloc(80000);
+	s_ht = gs_new("hufftables", sizeof(struct isal_hufftables) + 8192); s_hg = gs_new("histogram", sizeof(struct isal_huff_histogram) + 8192); s_ctx = gs_new("isal_zstream", sizeof(struct isal_zstream) + 8192); s_in = gs_new("next_in", 160000); s_out = gs_new("next_out", 340000);
+	data = malloc(160000); tstream = malloc(400000); expect = malloc(400000); dec = malloc(400000); cout = malloc(200000); dec2 = malloc(170000);
 	long per = (long) ((vopt.thorough ? 12000 : 260) * vopt.scale);
 	hist_guard_sweep();
 	/* the level-0 encoder variants: base / 01 / 02 / 04 are chosen by the CPU level */
